@@ -18,7 +18,7 @@ from ..common import rng_for, b2j
 
 LEVEL = "exploration"
 SHARDS = {"quick": 1, "thorough": 16}
-REQUIRED = ("families_with_selected_int_without_byte_order_in_little_endian_class", "earlier_parses_repacked", "position_sweep_cases", "roundtrips_checked", "leaf_events", "holes_checked", "overlap_cases", "offsets_nonzero")
+REQUIRED = ("families_with_end_marks_and_backward_empty_fields", "placeholder_positions_checked", "families_with_selected_int_without_byte_order_in_little_endian_class", "earlier_parses_repacked", "position_sweep_cases", "roundtrips_checked", "leaf_events", "holes_checked", "overlap_cases", "offsets_nonzero")
 MIN_NONTRIVIAL = 100
 RULE = {
     "quick": "seeded generator of declaration families over the whole language (Int all widths, Data in 7 sizing modes, Bits runs, "
@@ -61,6 +61,14 @@ def check_output(run, bench, variant, raw, off, out, consumed, extent, spans, wi
                 run.violation("pack() holds a non-fill byte at a skipped position",
                               dict(witness, variant=variant, position=p, packed=b2j(out)), None)
                 return False
+    for pos, cls, name in witness.get("placeholders", ()):
+        # an empty placeholder / empty byte string sits at `pos`: everything the parse skipped on its way there must be in the
+        # output as fill bytes, so the output reaches at least that far
+        run.count("placeholder_positions_checked")
+        if len(out) < pos:
+            run.violation("pack() ends before the position of an empty field / placeholder the parse reached: skipped positions before it are missing",
+                          dict(witness, variant=variant, packed=b2j(out), placeholder=[pos, cls, name]), None)
+            return False
     if len(out) > extent:
         run.violation("pack() is longer than the region the parse traversed",
                       dict(witness, variant=variant, packed=b2j(out), extent=extent), None)
@@ -85,6 +93,15 @@ def one_case(run, bench, rng, raw, off):
     spans, consumed, overlap, extent = driver.observed_spans(roots, off)
     run.count("leaf_events", len(spans))
     witness = {"source": driver.src_of(bench), "raw": b2j(raw), "offset": off, "spans": spans, "fam": fam}
+    # zero-width leaves that serialize an (empty) chunk where they stand: Em and empty byte strings written plainly in a declaration
+    placeholders = []
+    for n in monitors.leaves(roots):
+        if n.exit is not None and n.exit == n.enter and n.enter - off >= 0:
+            decl = fam["decls"].get(str(n.cls).rsplit("_", 1)[0])
+            f = next((x for x in (decl["fields"] if decl else ()) if x["name"] == n.name), None)
+            if f is not None and f["t"] in ("em", "data") and not any(k in f for k in ("rep", "opt", "describe")):
+                placeholders.append((n.enter - off, n.cls, n.name))
+    witness["placeholders"] = placeholders
     if off:
         run.count("offsets_nonzero")
     # secondary oracle: the model must see the same consumed bytes
@@ -183,7 +200,14 @@ def run(run):
     overlap_profile = {"p_backrun": 0.25, "p_move": 0.6, "p_backward_at": 0.5, "max_fields": 5, "max_depth": 2, "p_rep": 0.08, "p_opt": 0.05,
                        "moves": {"at": 7, "shift": 3, "aligned": 1}, "references": {"innermost-pkt": 5, "begins": 2, "current-offset": 1},
                        "kinds": {"int": 45, "data": 40, "bits": 5, "ref": 6, "sel": 0, "em": 4}, "int_widths": [1, 1, 2, 2, 3, 4]}
-    for bench in driver.families(run, rng, overlap_profile, VARIANTS, nfam // 3, tag="c01o"):
+    from .. import predicates
+    import itertools as _it
+    marks_profile = dict(overlap_profile, kinds={"int": 40, "data": 35, "bits": 3, "ref": 4, "sel": 0, "em": 18}, p_backrun=0.0, p_backward_at=0.8,
+                         moves={"at": 8, "shift": 2, "aligned": 0}, accept=predicates.far_placeholder_then_backward_empty, min_fields=4, max_fields=6)
+    for bench in _it.chain(driver.families(run, rng, overlap_profile, VARIANTS, nfam // 3, tag="c01o"),
+                           driver.families(run, rng, marks_profile, VARIANTS, nfam // 4, tag="c01m")):
+        if predicates.far_placeholder_then_backward_empty(bench.fam):
+            run.count("families_with_end_marks_and_backward_empty_fields")
         run.count("positioning_heavy_families")
         for j in range(8):
             raw, oc = model.generate_input(bench.fam, rng, offset=0)
